@@ -206,6 +206,17 @@ pub fn plan(p: u32, tier: &str) -> Vec<Run> {
             add(chains(true), families::chains(6));
             add(shapes_spec("eph-shapes-D2", 2, false), shapes_named(&eph_shapes));
             if thorough {
+                // the same families under the reversed node / edge declaration orders, faults included
+                let of = |mut x: Spec, name: &str| {
+                    x.orders = Orders::Few;
+                    x.orders_faulty = true;
+                    x.name = name.to_string();
+                    x
+                };
+                add(of(late("x", true), "late2x-orders-few-faulty"), families::late_gadget(2, true));
+                add(of(late("x", true), "latepair-orders-few-faulty"), families::late_pair());
+                add(of(late("x", true), "ephtrees-orders-few-faulty"), families::eph_trees());
+                add(of(s4d2ff(), "S4D2-k1-ff-orders-few-faulty"), families::slots_full_only(4));
                 let mut l3u = late("late3xu-k1", true);
                 l3u.edit_bound = Some(1);
                 add(l3u, families::late_gadget_opts(3, true, false, None));
@@ -318,6 +329,17 @@ pub fn plan(p: u32, tier: &str) -> Vec<Run> {
             add(o, families::slots(3));
             add(shapes_spec("shapes-D2", 2, false), families::shapes(true));
             if thorough {
+                // the same families under the reversed node / edge declaration orders, faults included
+                let of = |mut x: Spec, name: &str| {
+                    x.orders = Orders::Few;
+                    x.orders_faulty = true;
+                    x.name = name.to_string();
+                    x
+                };
+                add(of(late("x", true), "late2x-orders-few-faulty"), families::late_gadget(2, true));
+                add(of(late("x", true), "latepair-orders-few-faulty"), families::late_pair());
+                add(of(late("x", true), "ephtrees-orders-few-faulty"), families::eph_trees());
+                add(of(s4d2ff(), "S4D2-k1-ff-orders-few-faulty"), families::slots_full_only(4));
                 let mut ks = s("kindswap3-D2", 2, m);
                 ks.faults = vec![false, true];
                 add(ks, families::slots_kindswap(3));
@@ -365,6 +387,17 @@ pub fn plan(p: u32, tier: &str) -> Vec<Run> {
             add(shapes_spec("shapes-D2", 2, false), families::shapes(true));
             add(rename("rename-prod", Conv::Parts, Cmp::Prod), families::rename_opts(false, Kind::O, false));
             if thorough {
+                // the same families under the reversed node / edge declaration orders, faults included
+                let of = |mut x: Spec, name: &str| {
+                    x.orders = Orders::Few;
+                    x.orders_faulty = true;
+                    x.name = name.to_string();
+                    x
+                };
+                add(of(late("x", true), "late2x-orders-few-faulty"), families::late_gadget(2, true));
+                add(of(late("x", true), "latepair-orders-few-faulty"), families::late_pair());
+                add(of(late("x", true), "ephtrees-orders-few-faulty"), families::eph_trees());
+                add(of(s4d2ff(), "S4D2-k1-ff-orders-few-faulty"), families::slots_full_only(4));
                 let mut ks = s("kindswap3-D2", 2, m);
                 ks.faults = vec![false, true];
                 add(ks, families::slots_kindswap(3));
@@ -407,6 +440,17 @@ pub fn plan(p: u32, tier: &str) -> Vec<Run> {
             add(s("S3D2-volatile", 2, m), families::slots_volatile(3));
             add(shapes_spec("shapes-D2", 2, false), families::shapes(true));
             if thorough {
+                // the same families under the reversed node / edge declaration orders, faults included
+                let of = |mut x: Spec, name: &str| {
+                    x.orders = Orders::Few;
+                    x.orders_faulty = true;
+                    x.name = name.to_string();
+                    x
+                };
+                add(of(late("x", true), "late2x-orders-few-faulty"), families::late_gadget(2, true));
+                add(of(late("x", true), "latepair-orders-few-faulty"), families::late_pair());
+                add(of(late("x", true), "ephtrees-orders-few-faulty"), families::eph_trees());
+                add(of(s4d2ff(), "S4D2-k1-ff-orders-few-faulty"), families::slots_full_only(4));
                 let mut l3u = late("late3xu-k1", true);
                 l3u.edit_bound = Some(1);
                 add(l3u, families::late_gadget_opts(3, true, false, None));
@@ -583,6 +627,17 @@ pub fn plan(p: u32, tier: &str) -> Vec<Run> {
             add(chains(true), families::chains(6));
             add(shapes_spec("shapes-D2", 2, false), families::shapes(true));
             if thorough {
+                // the same families under the reversed node / edge declaration orders, faults included
+                let of = |mut x: Spec, name: &str| {
+                    x.orders = Orders::Few;
+                    x.orders_faulty = true;
+                    x.name = name.to_string();
+                    x
+                };
+                add(of(late("x", true), "late2x-orders-few-faulty"), families::late_gadget(2, true));
+                add(of(late("x", true), "latepair-orders-few-faulty"), families::late_pair());
+                add(of(late("x", true), "ephtrees-orders-few-faulty"), families::eph_trees());
+                add(of(s4d2ff(), "S4D2-k1-ff-orders-few-faulty"), families::slots_full_only(4));
                 let mut l3u = late("late3xu-k1", true);
                 l3u.edit_bound = Some(1);
                 add(l3u, families::late_gadget_opts(3, true, false, None));
@@ -708,6 +763,17 @@ pub fn plan(p: u32, tier: &str) -> Vec<Run> {
             add(s("S3D2-volatile", 2, m), families::slots_volatile(3));
             add(shapes_spec("shapes-D2", 2, false), families::shapes(true));
             if thorough {
+                // the same families under the reversed node / edge declaration orders, faults included
+                let of = |mut x: Spec, name: &str| {
+                    x.orders = Orders::Few;
+                    x.orders_faulty = true;
+                    x.name = name.to_string();
+                    x
+                };
+                add(of(late("x", true), "late2x-orders-few-faulty"), families::late_gadget(2, true));
+                add(of(late("x", true), "latepair-orders-few-faulty"), families::late_pair());
+                add(of(late("x", true), "ephtrees-orders-few-faulty"), families::eph_trees());
+                add(of(s4d2ff(), "S4D2-k1-ff-orders-few-faulty"), families::slots_full_only(4));
                 let mut ks = s("kindswap3-D2", 2, m);
                 ks.faults = vec![false, true];
                 add(ks, families::slots_kindswap(3));
@@ -1070,6 +1136,7 @@ pub fn cmd_run(args: &[String]) -> i32 {
             "orders" => spec.orders = Orders::AllNodes,
             "orders-all" => spec.orders = Orders::All,
             "orders-few" => spec.orders = Orders::Few,
+            "orders-faulty" => spec.orders_faulty = true,
             "remove" => spec.fail_mode = FailMode::Remove,
             "reconsider" => spec.reconsider = true,
             "nofaults" => spec.faults = vec![false; depth],
